@@ -498,20 +498,27 @@ func (e *lpmEntry) upsert(primaryKey index.Key, obj object) bool {
 	case -1:
 		oldHead := e.head
 		e.head = lpmEntryObject{primary: primaryKey, obj: obj}
-		e.tail = append(e.tail, lpmEntryObject{})
-		copy(e.tail[1:], e.tail[:len(e.tail)-1])
-		e.tail[0] = oldHead
+		// The tail's backing array is shared with the entries of earlier
+		// snapshots, so it must be copied rather than modified in place.
+		newTail := make([]lpmEntryObject, len(e.tail)+1)
+		newTail[0] = oldHead
+		copy(newTail[1:], e.tail)
+		e.tail = newTail
 		return true
 	}
 	idx, found := e.searchTail(primaryKey)
 	if found {
-		e.tail[idx].obj = obj
+		newTail := make([]lpmEntryObject, len(e.tail))
+		copy(newTail, e.tail)
+		newTail[idx].obj = obj
+		e.tail = newTail
 		return false
 	}
-	entry := lpmEntryObject{primary: primaryKey, obj: obj}
-	e.tail = append(e.tail, lpmEntryObject{})
-	copy(e.tail[idx+1:], e.tail[idx:])
-	e.tail[idx] = entry
+	newTail := make([]lpmEntryObject, len(e.tail)+1)
+	copy(newTail, e.tail[:idx])
+	newTail[idx] = lpmEntryObject{primary: primaryKey, obj: obj}
+	copy(newTail[idx+1:], e.tail[idx:])
+	e.tail = newTail
 	return true
 }
 
